@@ -51,8 +51,14 @@ def decIdxRule (w : W) : Option (Rule × Idx) :=
 def outHostSet (hs : List HostRule) : String :=
   outTextSet (hs.map fun h => (toString h.listID).toUTF8.toList ++ lit ":" ++ h.text)
 
+/-- Class of the basic rule as C02 states it: `_` = none, else `<exception><important>`. -/
+def outDnsClass (o : Option NetRule) : String :=
+  match o with
+  | none => "_"
+  | some f => outBool f.whitelist ++ outBool f.important
+
 def outDns (r : DnsResult) : String :=
-  (fun a => if a == "()|T|()|()|F" then "()" else a) <| outTextSet (r.networkRules.map (·.text)) ++ "|" ++ outBool r.networkRule.isNone ++ "|" ++
+  (fun a => if a == "()|_|()|()|F" then "()" else a) <| outTextSet (r.networkRules.map (·.text)) ++ "|" ++ outDnsClass r.networkRule ++ "|" ++
   outHostSet r.v4 ++ "|" ++ outHostSet r.v6 ++ "|" ++ outBool r.matched
 
 /-- `c02.dns ((idx rule)…) Q psl addrs (pat…) basic`: `basic` is Go's choice of `GetDNSBasicRule`
